@@ -32,6 +32,20 @@ def canon_atom(e: ast.AST) -> Tuple[str, bool]:
     if isinstance(e, ast.Compare) and len(e.ops) == 1:
         l, r, op = e.left, e.comparators[0], e.ops[0]
         lt, rt = ast.unparse(l), ast.unparse(r)
+        # len(x) compared with 0 / 1  ==  truthiness of the sized object
+        def _len_arg(e_):
+            return ast.unparse(e_.args[0]) if isinstance(e_, ast.Call) and isinstance(e_.func, ast.Name) and e_.func.id == "len" and len(e_.args) == 1 else None
+        def _const(e_):
+            return e_.value if isinstance(e_, ast.Constant) and isinstance(e_.value, int) and not isinstance(e_.value, bool) else None
+        la, ra, lc, rc_ = _len_arg(l), _len_arg(r), _const(l), _const(r)
+        if la is not None and rc_ is not None:
+            tbl = {(ast.Gt, 0): True, (ast.NotEq, 0): True, (ast.GtE, 1): True, (ast.Eq, 0): False, (ast.Lt, 1): False, (ast.LtE, 0): False}
+            if (type(op), rc_) in tbl:
+                return f"bool({la})", tbl[(type(op), rc_)]
+        if ra is not None and lc is not None:
+            tbl = {(ast.Lt, 0): True, (ast.NotEq, 0): True, (ast.LtE, 1): True, (ast.Eq, 0): False, (ast.Gt, 1): False, (ast.GtE, 0): False}
+            if (type(op), lc) in tbl:
+                return f"bool({ra})", tbl[(type(op), lc)]
         if isinstance(op, ast.Lt):
             return f"{lt} < {rt}", True
         if isinstance(op, ast.GtE):
@@ -188,6 +202,19 @@ def enumerate_paths(fn, fn_lookup: Optional[Callable[[ast.Call], Optional[ast.AS
     def expand(e):
         return ex.x(e)
 
+    class _Stub:
+        def __init__(self, nodes):
+            self.nodes = nodes
+
+    def resolved(e, nodes_so_far):
+        """the test expression with every local replaced by the value it has on THIS path (then single-assignment
+        expansion for what is left, e.g. closure variables)"""
+        try:
+            r = value_on_path(_Stub(nodes_so_far), cfg, e, upto=len(nodes_so_far))
+        except Exception:
+            r = e
+        return expand(r)
+
     def walk(nid, conds, nodes, events, visited, marks):
         if len(out) > max_paths:
             raise AnalysisError(f"too many paths in {getattr(fn, 'name', '?')}")
@@ -237,13 +264,13 @@ def enumerate_paths(fn, fn_lookup: Optional[Callable[[ast.Call], Optional[ast.AS
                 continue
             nc = conds
             if n.kind == "test" and lab in ("true", "false"):
-                nc = conds + [(cond_of(expand(n.stmt.test), expand), lab == "true")]
+                nc = conds + [(cond_of(resolved(n.stmt.test, nodes), None), lab == "true")]
             elif n.kind == "assert" and lab == "assert-fail":
-                nc = conds + [(cond_of(expand(n.stmt.test), expand), False)]
+                nc = conds + [(cond_of(resolved(n.stmt.test, nodes), None), False)]
             elif n.kind == "assert":
-                nc = conds + [(cond_of(expand(n.stmt.test), expand), True)]
+                nc = conds + [(cond_of(resolved(n.stmt.test, nodes), None), True)]
             elif n.kind == "loop" and lab in ("iter", "exhausted") and not second_visit:
-                it = expand(n.stmt.iter)
+                it = resolved(n.stmt.iter, nodes)
                 nm = f"bool({ast.unparse(it)})" if isinstance(it, (ast.Name, ast.Attribute)) else f"nonempty({ast.unparse(it)})"
                 nc = conds + [(Cond("atom", atom=nm, pol=True), lab == "iter")]
             # statements in a try body: the normal successor means "did not raise"
@@ -391,15 +418,18 @@ def return_paths(fn, fn_lookup=None, expander=None):
 
 
 def implies(conds, goal: Cond, max_atoms: int = 12) -> Optional[bool]:
-    """do the path conditions force `goal`?  (exhaustive over the atoms involved; None if too many)"""
+    """do the path conditions force `goal`?  Atoms fixed by plain conditions are substituted; the remaining free
+    atoms are enumerated exhaustively (None if there are too many)."""
+    fixed = simple_conds(conds)
     atoms: Set[str] = set(goal.atoms())
     for c, _ in conds:
         atoms |= c.atoms()
-    al = sorted(atoms)
-    if len(al) > max_atoms:
+    free = sorted(a for a in atoms if a not in fixed)
+    if len(free) > max_atoms:
         return None
-    for vals in itertools.product([False, True], repeat=len(al)):
-        env = dict(zip(al, vals))
+    for vals in itertools.product([False, True], repeat=len(free)):
+        env = dict(fixed)
+        env.update(zip(free, vals))
         if all(c.ev(env) == w for c, w in conds) and not goal.ev(env):
             return False
     return True
